@@ -9,7 +9,10 @@ def decode(string):
 validate_encoded = decode
 
 def validate_decoded(alignment):
-  alignment.validate()
+  if isinstance(alignment, gfapy.CIGAR):
+    alignment.validate(version = "gfa2")
+  else:
+    alignment.validate()
 
 def unsafe_encode(obj):
   return str(obj)
